@@ -6,6 +6,7 @@ from asyncio import (
 from collections import deque
 from collections.abc import Callable, Coroutine
 from datetime import timedelta
+from inspect import markcoroutinefunction
 from time import monotonic
 from typing import cast, overload
 
@@ -107,6 +108,9 @@ class _AsyncThrottle[**Args, Result]:
 
             case period_seconds:
                 self._period = period_seconds
+
+        # async callable objects are not recognized as coroutine functions unless marked
+        markcoroutinefunction(self)
 
         # mimic function attributes if able
         mimic_function(function, within=self)
